@@ -681,6 +681,49 @@ def regeneration(ctx, models, gens):
         shutil.rmtree(d, ignore_errors=True)
 
 
+def rule_loaded(ctx, repo, models, gens):
+    """Every generated initialiser is loaded: the generator emits `<name>_ii` / `<name>_ij` for each entry of its iterative-init table;
+    System._expand_pycode loads them by walking `init_seq`.  The loader's selection predicate is read from its AST (which kinds of
+    init_seq items it handles) and applied to every model's generated `init_seq`; a generated function outside the loaded set is dead
+    code -- Model.init silently skips that initialiser."""
+    f = F.method(repo, "System", "_expand_pycode", SYSTEM)
+    handles_list = handles_str = False
+    for lp in [l for l in ast.walk(f.fn) if isinstance(l, ast.For) and "init_seq" in src(l.iter)]:
+        for t in [x for x in ast.walk(lp) if isinstance(x, ast.If)]:
+            if "_ii" in src(t) or "calls.ii" in src(t):
+                tt = src(t.test)
+                if "isinstance" in tt and "list" in tt:
+                    handles_list = True
+                if "isinstance" in tt and "str" in tt:
+                    handles_str = True
+                if t.orelse and ("_ii" in "".join(src(x) for x in t.orelse)):
+                    handles_str = True
+        if not any(isinstance(x, ast.If) for x in ast.walk(lp)) and "_ii" in src(lp):
+            handles_list = handles_str = True
+    if not (handles_list or handles_str):
+        ctx.undecided("C02.consumer", "_expand_pycode/iterative-init", "loader of the iterative initialisers not recognised", f.W())
+        return
+    n = 0
+    for name, g_ in gens.items():
+        gen = sorted(k[:-3] for k in g_.funcs if k.endswith("_ii"))
+        seq = g_.tables.get("init_seq") or []
+        loaded = set()
+        for item in seq:
+            if isinstance(item, list) and handles_list:
+                loaded.add("_".join(item))
+            elif isinstance(item, str) and handles_str:
+                loaded.add(item)
+        dead = [x for x in gen if x not in loaded]
+        if gen:
+            n += 1
+            ctx.check(not dead, "C02.consumer", "%s/iterative-init" % name, "%d generated iterative initialiser(s), all loaded" % len(gen),
+                      "generated but never loaded: %s -- the loader only takes %s entries of init_seq, so Model.init skips these declared "
+                      "`v_iter` initialisers silently (generated in-process they would run)" % (
+                          ", ".join(x + "_ii" for x in dead), "multi-variable (list)" if handles_list and not handles_str else "some"),
+                      elab.locate(models[name], dead[0].split("_")[0]) if dead else "")
+    ctx.count("models_with_iterative_init", n)
+
+
 NPFUNC = "andes/thirdparty/npfunc.py"
 
 
@@ -776,6 +819,7 @@ def run(ctx):
         if missed:
             raise AnalysisError("translation validator is blind to %d mutants of generated code, e.g. %s" % (len(missed), missed[:3]))
     rule_consumers(ctx, repo)
+    rule_loaded(ctx, repo, models, gens)
     rule_writer_reader(ctx, repo)
     rule_hash(ctx, repo)
     rule_undill(ctx, repo)
